@@ -404,6 +404,16 @@ func Features() []Feature {
 		b.Msg("Root", spec.FM("bars", 1, b.FQ("BarList")).MapOf(spec.String), spec.F("next_page_token", 2, spec.String))
 		return "Root"
 	}})
+	// scalar-element and message-element wrappers in one file (a file with scalar wrappers alone does not
+	// build on the unchanged tree, recorded under C13, which would hide the scalar path)
+	add(Feature{ID: "unwrap/map-value/scalars-next-to-messages", Ann: "unwrap_mapvalue", Kind: "mixed", Card: "map", Shape: "word", Build: func(b *B) string {
+		b.Msg("Bar", spec.F("symbol", 1, spec.String), spec.F("price", 2, spec.Double))
+		b.Msg("BarList", spec.FM("bars", 1, b.FQ("Bar")).Rep().With(func(a *spec.Ann) { a.Unwrap = true }))
+		b.Msg("TagList", spec.F("values", 1, spec.String).Rep().With(func(a *spec.Ann) { a.Unwrap = true }))
+		b.Msg("NumList", spec.F("values", 1, spec.Int32).Rep().With(func(a *spec.Ann) { a.Unwrap = true }))
+		b.Msg("Root", spec.FM("bars", 1, b.FQ("BarList")).MapOf(spec.String), spec.FM("tags", 2, b.FQ("TagList")).MapOf(spec.String), spec.FM("nums", 3, b.FQ("NumList")).MapOf(spec.String), spec.F("next_page_token", 4, spec.String))
+		return "Root"
+	}})
 	add(Feature{ID: "unwrap/map-value/message-int64", Ann: "unwrap_mapvalue", Kind: "message-int64", Card: "map", Shape: "word", Build: func(b *B) string {
 		b.Msg("Bar", spec.F("symbol", 1, spec.String), spec.F("volume", 2, spec.Int64))
 		b.Msg("BarList", spec.FM("bars", 1, b.FQ("Bar")).Rep().With(func(a *spec.Ann) { a.Unwrap = true }))
